@@ -308,8 +308,24 @@ fn resolve_by_rule(prefixes: &[String], names: &[String], name: &str) -> Option<
     prefixes.iter().map(|p| format!("{p}{name}")).find(|c| names.contains(c))
 }
 
+/// Custom function / filter / test that read a variable the way user code does: `State::get`
+fn register_peek(tera: &mut Tera) {
+    tera.register_function("peek", |kwargs: tera::Kwargs, state: &tera::State| -> tera::TeraResult<Value> {
+        let name = kwargs.must_get::<&str>("name")?;
+        Ok(state.get::<Value>(name)?.unwrap_or_else(|| Value::from("~")))
+    });
+    tera.register_filter("peekf", |name: &str, _: tera::Kwargs, state: &tera::State| -> tera::TeraResult<Value> {
+        Ok(state.get::<Value>(name)?.unwrap_or_else(|| Value::from("~")))
+    });
+    tera.register_test("same_as_var", |v: Value, kwargs: tera::Kwargs, state: &tera::State| -> tera::TeraResult<bool> {
+        let name = kwargs.must_get::<&str>("name")?;
+        Ok(state.get::<Value>(name)?.unwrap_or_else(|| Value::from("~")) == v)
+    });
+}
+
 fn build_engine_raw(case: &Case) -> Result<Tera, String> {
     let mut tera = Tera::default();
+    register_peek(&mut tera);
     if let Some((prefixes, _, _)) = prefix_spec(case) {
         tera.set_fallback_prefixes(prefixes).map_err(|e| format!("{e}"))?;
         tera.add_raw_templates(case.sources().into_iter().filter(|(n, _)| n != "__str")).map_err(|e| format!("{e}"))?;
@@ -2270,12 +2286,18 @@ enum M {
     Inc,
 }
 
+thread_local! {
+    /// the probes of the M family also read through the custom function / filter / test
+    static PEEK_MODE: std::cell::Cell<bool> = const { std::cell::Cell::new(false) };
+}
+
 /// source text; `global`: set_global; `form`: 0 = `{% set p = "v" ~ x %}`, 1 = block, 2 = block with `| upper`
 fn m_src(ms: &[M], global: bool, form: u8, out: &mut String) {
     let kw = if global { "set_global" } else { "set" };
     for m in ms {
         match m {
             M::T(t) => out.push_str(t),
+            M::R if PEEK_MODE.with(|p| p.get()) => out.push_str("[{{ p | default(value=\"~\") }}={{ peek(name=\"p\") }}={{ \"p\" | peekf }}={{ (p | default(value=\"~\")) is same_as_var(name=\"p\") }}]"),
             M::R => out.push_str("[{{ p | default(value=\"~\") }}]"),
             M::Assign => match form {
                 0 => out.push_str(&format!("{{% {kw} p = \"v\" ~ x %}}")),
@@ -2338,6 +2360,10 @@ fn m_run(ms: &[M], st: &mut MState, global: bool, form: u8, inc: &[M], out: &mut
     for m in ms {
         match m {
             M::T(t) => out.push_str(t),
+            M::R if PEEK_MODE.with(|p| p.get()) => {
+                let v = st.get("p").unwrap_or_else(|| "~".into());
+                out.push_str(&format!("[{v}={v}={v}=true]"));
+            }
             M::R => out.push_str(&format!("[{}]", st.get("p").unwrap_or_else(|| "~".into()))),
             M::Assign => {
                 let v = format!("v{}", st.get("x").unwrap_or_default());
@@ -2398,6 +2424,8 @@ fn oracle_set_forms(out: &mut Vec<Check>) {
         ("filter_section_in_for", vec![For("x", "xs", vec![T("<"), R, Filter(vec![T("f"), Assign, R]), R, T(">")], vec![]), R]),
         ("include_in_for", vec![For("x", "xs", vec![T("<"), R, Inc, R, T(">")], vec![]), R]),
         ("set_block_in_for", vec![For("x", "xs", vec![T("<"), R, Assign, For("z", "ys", vec![R], vec![]), T(">")], vec![]), R]),
+        // the probed name is itself a loop variable, shadowed in turn by an assignment and seen from an include
+        ("loop_var_named_p", vec![R, For("p", "ys", vec![T("<"), R, For("x", "xs", vec![R, IfEq("x", 2, vec![Assign, R]), R], vec![]), Inc, R, T(">")], vec![]), R]),
     ];
     let inc: Vec<M> = vec![T("("), R, Assign, R, T(")")];
     let lists: BTreeMap<&'static str, Vec<String>> = BTreeMap::from([("xs", vec!["1".to_string(), "2".to_string(), "3".to_string()]), ("ys", vec!["a".to_string(), "b".to_string()]), ("none_", vec![])]);
@@ -2425,6 +2453,21 @@ fn oracle_set_forms(out: &mut Vec<Check>) {
                     let _ = place;
                     out.push(Check {
                         oracle: "scope.set_forms_by_place",
+                        case: Case { templates: vec![("main".into(), tpl(&main_src)), ("inc".into(), tpl(&inc_src))], ctx: ctx.clone(), global: vec![], stream: "oracle.set_forms".into() },
+                        expect: Expect::Text(expected),
+                    });
+                    // the same program with every read doubled by `State::get` from a custom function,
+                    // filter and test: user code must see what `{{ p }}` sees at that place
+                    PEEK_MODE.with(|p| p.set(true));
+                    let mut st = MState { loops: vec![], assigned: BTreeMap::new(), parent: None, ctx: &ctxm, lists: &lists };
+                    let mut expected = String::new();
+                    m_run(prog, &mut st, global, form, &inc, &mut expected);
+                    let (mut main_src, mut inc_src) = (String::new(), String::new());
+                    m_src(prog, global, form, &mut main_src);
+                    m_src(&inc, global, form, &mut inc_src);
+                    PEEK_MODE.with(|p| p.set(false));
+                    out.push(Check {
+                        oracle: "scope.state_get_sees_same_as_template",
                         case: Case { templates: vec![("main".into(), tpl(&main_src)), ("inc".into(), tpl(&inc_src))], ctx, global: vec![], stream: "oracle.set_forms".into() },
                         expect: Expect::Text(expected),
                     });
@@ -2564,6 +2607,50 @@ fn oracle_fallback_prefixes(out: &mut Vec<Check>) {
             let templates: Vec<(String, Vec<St>)> = present.iter().map(|n| (n.clone(), tpl(&marker(n)))).collect();
             out.push(Check { oracle: "include.fallback_prefix_order", case: Case { templates, ctx: vec![], global: vec![], stream: format!("prefixes|{}|render|part", prefixes.join(";")) }, expect: Expect::Text(marker(&resolved)) });
         }
+    }
+}
+
+
+/// include graphs with SHARED nodes are not cycles: they are accepted and render
+fn oracle_include_dag(out: &mut Vec<Check>) {
+    let fam = |ts: &[(&str, &str)]| -> Vec<(String, Vec<St>)> { ts.iter().map(|(n, s)| (n.to_string(), tpl(s))).collect() };
+    let cases: Vec<(Vec<(String, Vec<St>)>, &str)> = vec![
+        (fam(&[("main", "P[{% include \"header\" %}|{% include \"sidebar\" %}]"), ("header", "H({% include \"icon\" %})"), ("sidebar", "S({% include \"icon\" %})"), ("icon", "*")]), "P[H(*)|S(*)]"),
+        (fam(&[("main", "M[{% include \"a\" %}|{% include \"b\" %}]"), ("a", "A"), ("b", "B<{% include \"a\" %}>")]), "M[A|B<A>]"),
+        (fam(&[("main", "M[{% include \"b\" %}|{% include \"a\" %}|{% include \"a\" %}]"), ("a", "A"), ("b", "B<{% include \"a\" %}{% include \"a\" %}>")]), "M[B<AA>|A|A]"),
+        (fam(&[("main", "{% include \"l\" %}{% include \"r\" %}"), ("l", "l({% include \"m\" %})"), ("r", "r({% include \"m\" %})"), ("m", "m[{% include \"leaf\" %}{% include \"leaf2\" %}]"), ("leaf", "x"), ("leaf2", "y{% include \"leaf\" %}")]), "l(m[xyx])r(m[xyx])"),
+        (fam(&[("main", "{% for i in [1, 2] %}{% include \"a\" %}{% set c %}{% include \"b\" %}{% endset %}{{ c }}{% endfor %}"), ("a", "a{{ i }}{% include \"shared\" %}"), ("b", "b{{ i }}{% include \"shared\" %}{% include \"a\" %}"), ("shared", "s")]), "a1sb1sa1sa2sb2sa2s"),
+        (fam(&[("main", "{% include \"d1\" %}"), ("d1", "1{% include \"d2\" %}{% include \"d3\" %}"), ("d2", "2{% include \"d3\" %}{% include \"d4\" %}"), ("d3", "3{% include \"d4\" %}"), ("d4", "4")]), "1234434"),
+    ];
+    for (templates, expect) in cases {
+        // every template of the family is a valid render target too
+        out.push(Check { oracle: "include.shared_nodes_are_not_cycles", case: Case { templates, ctx: vec![], global: vec![], stream: "oracle.include_dag".into() }, expect: Expect::Text(expect.to_string()) });
+    }
+}
+
+/// dotted paths rooted at the magic `__tera_context` read the same values as the plain names
+fn oracle_tera_context_paths(out: &mut Vec<Check>) {
+    let mut nested = tera::Map::new();
+    nested.insert("a".into(), Value::from(1));
+    let ctx = vec![("name".to_string(), Value::from("N")), ("x".to_string(), Value::from("low")), ("k".to_string(), Value::from(5)), ("nested".to_string(), Value::from(nested)), ("xs".to_string(), Value::from(vec![Value::from(7), Value::from(8)]))];
+    for (src, e) in [
+        ("{{ __tera_context.name }}", Some("N")),
+        ("{{ __tera_context.name }}={{ name }}", Some("N=N")),
+        ("{{ __tera_context.x | upper }}", Some("LOW")),
+        ("{{ __tera_context.y or 'd' }}", Some("d")),
+        ("{{ __tera_context.y | default(value=\"d\") }}", Some("d")),
+        ("{{ __tera_context.y is defined }}/{{ __tera_context.x is defined }}", Some("false/true")),
+        ("{{ __tera_context.nested.a }}/{{ __tera_context.nested.a + __tera_context.k }}", Some("1/6")),
+        ("{{ __tera_context.k + 1 }}/{{ __tera_context.k == k }}/{{ __tera_context.xs[1] }}", Some("6/true/8")),
+        ("{% if __tera_context.name %}T{% else %}F{% endif %}{% if __tera_context.nope %}T{% else %}F{% endif %}", Some("TF")),
+        ("{{ \"a\" if __tera_context.k else \"b\" }}/{{ __tera_context.name ~ \"!\" }}", Some("a/N!")),
+        ("{% set s = 3 %}{{ __tera_context.s }}/{{ __tera_context.s * 2 }}", Some("3/6")),
+        ("{% for v in __tera_context.xs %}{{ v }}{% endfor %}", Some("78")),
+        ("{{ __tera_context?.name }}/{{ __tera_context?.nope is defined }}", Some("N/false")),
+        ("{{ __tera_context.nope.deeper }}", None),
+        ("{{ __tera_context.nope }}", None),
+    ] {
+        out.push(Check { oracle: "tera_context.dotted_paths", case: simple_case("oracle.tera_context", src, ctx.clone(), vec![]), expect: match e { Some(t) => Expect::Text(t.into()), None => Expect::AnyErr } });
     }
 }
 
@@ -3800,6 +3887,7 @@ pub fn run(prop: &str) {
         oracle_set_forms(&mut fixed);
         oracle_loop_fields_through_captures(&mut fixed);
         oracle_fallback_prefixes(&mut fixed);
+        oracle_include_dag(&mut fixed);
         // render_block of blocks written inside captures (also C04's clause; c04e runs them too)
         oracle_inheritance_shapes(&mut fixed);
     }
@@ -3812,6 +3900,7 @@ pub fn run(prop: &str) {
         if c02 {
             oracle_value_matrix(&mut rng, &env, &mut fixed);
             oracle_value_matrix_arrays(&mut fixed);
+            oracle_tera_context_paths(&mut fixed);
         }
     }
     report.count_n("oracle.fixed_checks", fixed.len() as u64);
